@@ -399,6 +399,46 @@ def interp_block(_b):
                     eng.prove(f"{base}/interp.linear_between_neighbours/{cfg}",
                               sx.Implies((q >= p[i]) & (q <= p[i + 1]), on_line))
         obs += collect(eng, run, base, cfg)
+    # the refusal does not depend on what was asked before: an earlier call that did give a fill rule
+    # (directly or through spreading_pressure_at) must not make a later call without one answer outside the range
+    priors = {'same.fill0': lambda iso, q2: iso.loading_at(q2, interp_fill=0),
+              'same.extrapolate': lambda iso, q2: iso.loading_at(q2, interp_fill='extrapolate'),
+              'same.fill_pair': lambda iso, q2: iso.loading_at(q2, interp_fill=(1, 2)),
+              'pressure_at.extrapolate': lambda iso, q2: iso.pressure_at(q2, interp_fill='extrapolate')}
+    for method, prior in itertools.product(('loading_at', 'pressure_at'), priors):
+        cfg = f"{method}|after:{prior}"
+        base = f"{P}/PointIsotherm.{method}"
+        eng = sx.Engine(max_paths=512)
+
+        def run():
+            stubs.Interp1dStub.instances.clear()
+            stubs.Interp1dStub.mode = 'linear'
+            iso = I.make_iso(eng, _lab(), n=3, frame=True, branch=[0, 0, 0])
+            iso.l_interpolator = iso.p_interpolator = None
+            p, l = iso.data_raw.cols['pressure'], iso.data_raw.cols['loading']
+            eng.assume((p[0] > 0) & (p[0] < p[1]) & (p[1] < p[2]) & (l[0] > 0) & (l[0] < l[1]) & (l[1] < l[2]))
+            q, q2 = eng.real('q', positive=True), eng.real('q2', positive=True)
+            pr = priors[prior]
+            if method == 'pressure_at':
+                pr = {'same.fill0': lambda iso, q2: iso.pressure_at(q2, interp_fill=0),
+                      'same.extrapolate': lambda iso, q2: iso.pressure_at(q2, interp_fill='extrapolate'),
+                      'same.fill_pair': lambda iso, q2: iso.pressure_at(q2, interp_fill=(1, 2)),
+                      'pressure_at.extrapolate': lambda iso, q2: iso.loading_at(q2, interp_fill='extrapolate')}[prior]
+            try:
+                pr(iso, q2)
+            except ValueError:
+                pass
+            try:
+                getattr(iso, method)(q)
+                out = 'return'
+            except ValueError:
+                out = 'ValueError'
+            x = p if method == 'loading_at' else l
+            inside = (q >= x[0]) & (q <= x[2])
+            x_ = {'replay': {'kind': 'c03.refusal_history', 'method': method, 'prior': prior}}
+            eng.prove(f"{base}/interp.refused_outside_range_after_filled_call/{cfg}", sx.Implies(sx.Not(inside), out == 'ValueError'), extra=x_)
+            eng.prove(f"{base}/interp.answers_inside_range_after_filled_call/{cfg}", sx.Implies(inside, out == 'return'), extra=x_)
+        obs += collect(eng, run, base, cfg)
     stubs.Interp1dStub.mode = 'uf'
     return obs
 
